@@ -16,8 +16,12 @@ import (
 // updater, so that several edits can run inside ONE callback and the callback
 // can fail after any of them. It reports whether the edit issued an operation
 // or a presence change (i.e. mutated the clone).
-func editIn(r *json.Object, p *presence.Presence, s prog.Step) (desc string, mutated bool) {
+func editIn(cx *cbCtx, r *json.Object, p *presence.Presence, s prog.Step) (desc string, mutated bool) {
 	mutated = true
+	if isExtOp(s.Op) {
+		// the edits only this package has: every one of them issues an operation
+		return editExt(cx, r, p, s), true
+	}
 	switch s.Op {
 	case "pset":
 		k := []string{"cursor", "name"}[s.A%2]
@@ -149,6 +153,22 @@ func editIn(r *json.Object, p *presence.Presence, s prog.Step) (desc string, mut
 		if tr == nil {
 			r.SetInteger("k0", 0)
 			return "no tree", true
+		}
+		if !simpleShape(tr.Tree) {
+			// The structure-preserving edits address doc > p* > text* by
+			// path. Once an edit by index has left text directly under the
+			// root or nested elements, those paths are not valid any more:
+			// the edit is executed as its by-index counterpart.
+			op := map[string]string{"trtext": "tredit", "trins": "tredit", "trdel": "trmerge", "trstyle": "trstylex"}[s.Op]
+			c := s.C
+			switch s.Op {
+			case "trtext":
+				c = 1 + s.C%2 // a text
+			case "trins":
+				c = 3 + s.C%2 // an element
+			}
+			cx.count("tree_structured_edit_on_free_shape")
+			return "tr: " + treeExt(cx, tr, prog.Step{Op: op, A: s.A*8 + s.B, B: s.B, C: c}), true
 		}
 		var ps []*crdt.TreeNode
 		for _, ch := range tr.Root().Index.Children() {
